@@ -531,6 +531,10 @@ impl VersionSet {
                         ));
                     }
                 }
+
+                // The new version was not installed. Callers must not act as if it was (e.g.
+                // drop the immutable memtable or delete files).
+                return Err(error);
             }
         }
 
